@@ -26,6 +26,8 @@ type RdbReplay struct {
 	KeyExists       string
 	KeyExistsLog    bool
 	ReplaceHashTag  bool
+
+	ignoredKey []byte // key whose remaining chunks are skipped (key-exists policy "ignore")
 }
 
 func (rr *RdbReplay) Replay(e *rdb.BinEntry) (err error) {
@@ -57,45 +59,7 @@ func (rr *RdbReplay) Replay(e *rdb.BinEntry) (err error) {
 	}
 
 	if !restoreCmd {
-		if ot == rdb.RdbObjectModule {
-			return fmt.Errorf("rdb module object requires RESTORE replay for key %s", e.Key)
-		}
-		if e.FirstBin() {
-			exist, err := common.Bool(rr.Client.Do("exists", e.Key))
-			if err != nil {
-				return err
-			}
-			if exist {
-				switch rr.KeyExists {
-				case "replace":
-					if rr.KeyExistsLog {
-						log.Infof("replace key: %s", e.Key)
-					}
-					_, err := common.Int64(rr.Client.Do("del", e.Key))
-					if err != nil {
-						return fmt.Errorf("del exist key error : key(%s), error(%w)", e.Key, err)
-					}
-				case "ignore":
-					if rr.KeyExistsLog {
-						log.Warnf("output key exist, ignore it : %s", e.Key)
-					}
-				case "error":
-					return fmt.Errorf("output key exist : %s", e.Key)
-				}
-			}
-		}
-
-		err = restoreBigRdbEntry(rr.Client, e)
-		if err != nil {
-			return err
-		}
-		if e.ExpireAt != 0 {
-			r, err := common.Int64(rr.Client.Do("pexpire", e.Key, ttlms))
-			if err != nil && r != 1 {
-				return fmt.Errorf("expire key error : key(%s), error(%w)", e.Key, err)
-			}
-		}
-		return nil
+		return rr.replayByCommands(e, ttlms)
 	}
 
 	params := []interface{}{e.Key, ttlms, e.DumpValue()}
@@ -132,9 +96,7 @@ RESTORE:
 			}
 		} else if strings.Contains(err.Error(), "Bad data format") { // cluster.c:restoreCommand
 			log.Warn(err, " try to restoreBigRdbEntry")
-			if err := restoreBigRdbEntry(rr.Client, e); err != nil {
-				return err
-			}
+			return rr.replayByCommands(e, ttlms)
 		} else {
 			return fmt.Errorf("restore command error : key(%s), error(%w)", e.Key, err)
 		}
@@ -142,6 +104,56 @@ RESTORE:
 		return fmt.Errorf("restore command response is not OK : %s", s)
 	}
 
+	return nil
+}
+
+// replayByCommands expands the entry into native commands, honouring the key-exists policy
+// before the first chunk of a value and restoring the expiry afterwards.
+func (rr *RdbReplay) replayByCommands(e *rdb.BinEntry, ttlms uint64) error {
+	if e.ObjectParser.Type() == rdb.RdbObjectModule {
+		return fmt.Errorf("rdb module object requires RESTORE replay for key %s", e.Key)
+	}
+	if e.FirstBin() {
+		rr.ignoredKey = nil
+		exist, err := common.Bool(rr.Client.Do("exists", e.Key))
+		if err != nil {
+			return err
+		}
+		if exist {
+			switch rr.KeyExists {
+			case "replace":
+				if rr.KeyExistsLog {
+					log.Infof("replace key: %s", e.Key)
+				}
+				_, err := common.Int64(rr.Client.Do("del", e.Key))
+				if err != nil {
+					return fmt.Errorf("del exist key error : key(%s), error(%w)", e.Key, err)
+				}
+			case "ignore":
+				if rr.KeyExistsLog {
+					log.Warnf("output key exist, ignore it : %s", e.Key)
+				}
+				// keep the existing key untouched, also for the remaining chunks of this value
+				rr.ignoredKey = append([]byte{}, e.Key...)
+				return nil
+			case "error":
+				return fmt.Errorf("output key exist : %s", e.Key)
+			}
+		}
+	} else if rr.ignoredKey != nil && bytes.Equal(rr.ignoredKey, e.Key) {
+		return nil
+	}
+
+	err := restoreBigRdbEntry(rr.Client, e)
+	if err != nil {
+		return err
+	}
+	if e.ExpireAt != 0 {
+		r, err := common.Int64(rr.Client.Do("pexpire", e.Key, ttlms))
+		if err != nil && r != 1 {
+			return fmt.Errorf("expire key error : key(%s), error(%w)", e.Key, err)
+		}
+	}
 	return nil
 }
 
